@@ -9,6 +9,7 @@ import FxVerif.Model.Util
 * `target <hex>` → `ibc <prefix> <port> <channel>` / `plain <target>` (hex fields)
 * `b32 <hex>` → `ok <hex>` / `err`
 * `hexstr <hex>` → `ok` / `err` (does `hex.DecodeString` accept the text)
+* `modname <hex>` → `ok` / `err` (`ValidateModuleName`); `b32s <hex of 32 bytes>` → hex of `Byte32ToString`
 * `pcv <precompile>.<abi method> <ArgsType> <feature>=<value> …` → `ok | err | panic`: verdict of the `Validate` program
   REGENERATED from the Go AST (`Gen/C20Run.lean`) on the decoded argument struct described by the features (keyed by Go
   field name: `len:Tokens=2`, `big:Amount=12` (`big:X=nil` for a nil pointer), `zaddr:Refund=0`, `empty:Receipt=1`,
@@ -34,9 +35,17 @@ def pcvEnv (kvs : List (String × String)) : FxVerif.Model.C20Args.Env :=
   let get (pfx f : String) : Option String := (kvs.find? (·.1 == pfx ++ f)).map (·.2)
   let nat (pfx f : String) : Nat := ((get pfx f).bind String.toNat?).getD 0
   let flag (pfx f : String) : Bool := (get pfx f) == some "1"
+  -- `ValidateModuleName` is MODELLED (computed from the field's bytes, `str:<Field>=<hex>`); `ValAddressFromBech32` (bech32) is
+  -- an environment input reported by the harness
+  let ext (fn f : String) : Bool :=
+    if fn == "ValidateModuleName" then
+      match (get "str:" f).bind unhex with
+      | some bs => !validateModuleName bs
+      | none => true
+    else flag ("ext:" ++ fn ++ ":") f
   { len := nat "len:", big := fun f => (get "big:" f).bind parseInt, elemsOk := fun _ => true,
     zeroAddr := flag "zaddr:", emptyStr := flag "empty:", zeroArr := flag "zarr:",
-    ext := fun fn f => flag ("ext:" ++ fn ++ ":") f, num := nat "num:" }
+    ext := ext, num := nat "num:" }
 
 def pcv (key tname : String) (feats : List String) : String :=
   match key.splitOn "." with
@@ -74,6 +83,14 @@ def step (_ : Unit) (line : String) : Unit × String :=
   | ["b32", h] =>
     match unhex h with
     | some bs => ((), match strToByte32 bs with | .ok out => "ok " ++ hex out | .error _ => "err")
+    | none => ((), "bad-op")
+  | ["modname", h] =>
+    match unhex h with
+    | some bs => ((), if validateModuleName bs then "ok" else "err")
+    | none => ((), "bad-op")
+  | ["b32s", h] =>
+    match unhex h with
+    | some bs => ((), hex (byte32ToString bs))
     | none => ((), "bad-op")
   | ["hexstr", h] =>
     match unhexStr h with
